@@ -196,6 +196,12 @@ where
         .fold(Serde::<A>::default(), |acc, cur| acc.merge(cur))
 }
 
+/// `*/` inside the documentation text (e.g. a glob like `src/**/*.rs`) would end the JSDoc block
+/// early, and the rest of the text would be read as code. It is emitted as `*\/`.
+fn escape_comment_end(doc: &str) -> String {
+    doc.replace("*/", "*\\/")
+}
+
 /// Return doc comments parsed and formatted as JSDoc.
 pub fn parse_docs(attrs: &[Attribute]) -> Result<String> {
     let doc_attrs = attrs
@@ -206,7 +212,7 @@ pub fn parse_docs(attrs: &[Attribute]) -> Result<String> {
             Expr::Lit(ExprLit {
                 lit: Lit::Str(ref str),
                 ..
-            }) => Ok(str.value()),
+            }) => Ok(escape_comment_end(&str.value())),
             _ => syn_err!(attr.span(); "doc  with non literal expression found"),
         })
         .collect::<Result<Vec<_>>>()?;
